@@ -370,7 +370,7 @@ FINDINGS = []
 
 SUBS = [
     Sub("transform", lambda tier: transform_cases(tier), check_transform, quick=700, thorough=6000),
-    Sub("paths", lambda tier: path_cases(tier), check_paths, quick=500, thorough=4000),
+    Sub("paths", lambda tier: path_cases(tier), check_paths, quick=900, thorough=4000),
 ]
 
 RULE += ' Also: the same points as float32 arrays; stacks of point arrays (three array dimensions) refused by transform and fill_n.'
